@@ -2,6 +2,7 @@ import XmppModel.Lemmas.NegotiateAdv
 import XmppModel.Lemmas.NegotiateFault
 import XmppModel.Lemmas.NegotiateDone
 import XmppModel.Lemmas.NegotiateComplete
+import XmppModel.Lemmas.NegotiateForced
 /-!
 The invariants of the negotiation machine hold in every reachable configuration (initial
 configuration + preservation by `step`, lifted by induction on the number of steps).
@@ -113,6 +114,13 @@ theorem invK_reach {c : Conf} (h : Reach C O st0 script picks c) : InvK C c := b
   · intro _ h; cases h
   · intro _ _ name req f hm; cases hm
   · intro h; cases h
+
+theorem invX_reach {c : Conf} (h : Reach C O st0 script picks c) : InvX C c := by
+  refine reach_ind (P := InvX C) ?_ (fun c _ hc => invX_step C O c hc) c h
+  refine ⟨True.intro, fun _ _ => rfl, ?_, ?_, ?_⟩
+  · intro _ h; cases h
+  · intro h; cases h
+  · intro h; rcases h with h | h | h <;> cases h
 
 theorem allowed_mandatory {cands : List Entry} {e : Entry} (he : e ∈ allowed cands)
     (hr : e.req = true) : ∀ e' ∈ cands, e'.req = true := by
